@@ -15,10 +15,11 @@ CONFIG = dict(
                         'enumerated completely through LinesStatsCalculator.Consume; histories are sampled, not enumerated',
         assumptions=[
             'replay_ok (coq/theories/LineStats/Model.v): the merge flag of a replay step says exactly whether its commit is replayed more than once, and a commit '
-            'is replayed at most once per parent.  This is what C02 (plan) and C14 (run loop, isMerge) provide; it is not proved here, it is evaluated on the '
+            'is replayed at most once per parent.  This is what C02 (plan) and C14 (run loop, isMerge) provide; it is derived in Coq from C02\'s specification and C14_is_merge for every '
+            'completed model run on a validated plan (C12_replay_ok_composed, docs/COMPOSITION.md) and is evaluated on the '
             'replay sequence of every real run of the harness (real plan from verifapi.PrepareRunPlan and the steps a recording item saw) and a failure is reported',
             'C12_linestats needs a script without two neighbouring deletions (C11: FileDiff output is canonical); every script the real FileDiff produced in the '
-            'harness runs is checked against the extracted predicate',
+            'harness runs is checked against the extracted predicate; C12_linestats_composed derives the hypothesis from C11\'s validator script_ok',
             'author index, tick, tree changes, diff scripts, blob line counts and languages are inputs of the model (observed per replay step); they belong to C16, C19, C20, C11',
             '"changes files relative to a parent" is judged on the parent the commit was replayed on; a root commit is compared with the empty tree',
         ],
